@@ -42,7 +42,7 @@ type Case struct {
 	Cfg  vmx.Cfg  `json:"cfg"`
 	Segs []string `json:"segs"`
 	Cut  int      `json:"cut"`
-	// Mode: "map" (ValueMap.ToJSON / json.Unmarshal into a ValueMap), "values" (VMValue.ToJSON and VMValueFromJSON per
+	// Mode: "map" (ValueMap.ToJSON / json.Unmarshal into a ValueMap; "map-used", "map-used-read", "map-used-del": into a ValueMap that already holds other variables), "values" (VMValue.ToJSON and VMValueFromJSON per
 	// variable), "value:<name>" (that one variable only; the rest of the store is copied by reference)
 	Mode string `json:"mode"`
 	// ReadOnly: the follow-ups do not mutate containers of the snapshot, so sharing inside it is not observable
@@ -321,6 +321,26 @@ func restoreStore(doc []byte, mode string, orig *ds.ValueMap) (m *ds.ValueMap, e
 				}
 				m.Store(k, v)
 			}
+		case strings.HasPrefix(mode, "map-used"):
+			// the host restores into the variable store of a VM that is in use: what the store held is replaced
+			// (UnmarshalJSON clears it first), whatever state its internals are in: keys only written ("map-used"),
+			// keys written and read back so that they were promoted ("map-used-read"), keys written and deleted
+			for i, k := range []string{"陈旧", "stale_hp", "x", "mp"} {
+				m.Store(k, ds.NewIntVal(ds.IntType(900+i)))
+			}
+			switch mode {
+			case "map-used-read":
+				for i := 0; i < 8; i++ {
+					m.Load("stale_hp")
+					m.Load("nope")
+				}
+				m.Store("late", ds.NewIntVal(1))
+			case "map-used-del":
+				m.Range(func(string, *ds.VMValue) bool { return true })
+				m.Delete("mp")
+				m.Store("late", ds.NewIntVal(1))
+			}
+			err = json.Unmarshal(doc, m)
 		default:
 			err = json.Unmarshal(doc, m)
 		}
